@@ -100,12 +100,35 @@ fn main() {
                     // follow.  Look for an input on which the real code fails the same obligation (seeded; a hit is a
                     // genuine, replayed counterexample, a miss leaves the candidate unconfirmed = inconclusive).
                     let names: Vec<String> = c.model.keys().filter(|k| !k.contains('(')).cloned().collect();
+                    // (a) the sign orbit of the solver's model: effects that hinge on the sign of a zero or on which side of a
+                    //     branch cut a rounded value falls are invisible over the reals but flip under sign changes of the
+                    //     inputs, which keep the model on the same algebraic variety in the common (even/odd) cases
+                    {
+                        let nz: Vec<&String> = names.iter().filter(|k| { let v = &c.model[*k]; v != "0" && !v.starts_with('~') }).collect();
+                        let combos: u64 = if nz.len() <= 10 { 1u64 << nz.len() } else { 1024 };
+                        let mut st: u64 = 0x2545F4914F6CDD1D ^ cfg.seed | 1;
+                        'orbit: for scale in ["", "2*", "3*"] {
+                            for mask in 1..combos {
+                                let bits = if nz.len() <= 10 { mask } else { st ^= st << 13; st ^= st >> 7; st ^= st << 17; st };
+                                let mut m = c.model.clone();
+                                for (j, k) in nz.iter().enumerate() {
+                                    let v = c.model[*k].clone();
+                                    let neg = (bits >> (j % 64)) & 1 == 1;
+                                    let v = if neg { if let Some(r) = v.strip_prefix('-') { r.to_string() } else { format!("-{}", v) } } else { v };
+                                    let v = match (scale, v.split_once('/')) { ("", _) => v, (sc, Some((n, d))) => { let f: i64 = sc[..1].parse().unwrap(); match n.parse::<i64>() { Ok(n) => format!("{}/{}", n * f, d), _ => v } } (sc, None) => { let f: f64 = sc[..1].parse().unwrap(); match v.parse::<f64>() { Ok(x) => format!("{}", x * f), _ => v } } };
+                                    m.insert((*k).clone(), v);
+                                }
+                                let ct = run_concrete(cfg.clone(), true, &m, &mut body);
+                                if ct.failures.iter().any(|l| label_matches(l, &c.label)) { confirmed = true; model_used = m; mode = "f64 (sign/scale orbit of the solver model: the failure hinges on rounding or the sign of a zero)"; break 'orbit; }
+                            }
+                        }
+                    }
                     let t_search = std::time::Instant::now();
                     let mut st: u64 = 0xD1B54A32D192ED03 ^ (cfg.seed.wrapping_mul(0x9E3779B97F4A7C15)) | 1;
                     let mut next = || { st ^= st << 13; st ^= st >> 7; st ^= st << 17; st };
                     let (lo, hi) = cfg.real_search;
                     for trial in 0..300u32 {
-                        if names.is_empty() || t_search.elapsed().as_secs() > 30 { break; }
+                        if confirmed || names.is_empty() || t_search.elapsed().as_secs() > 30 { break; }
                         let mut m = BTreeMap::new();
                         for n in &names {
                             let steps = 32.0;
